@@ -64,7 +64,8 @@ class Run:
             self.overlay_cache[k] = v.overlay_for(self.sc, {n: pkgdir for n in names})
         return self.overlay_cache[k]
 
-    def execute(self, hname, pkgdir, runre, behaviours, tag, env=None, race=False, timeout=1200, allow_fail=False):
+    def execute(self, hname, pkgdir, runre, behaviours, tag, env=None, race=False, timeout=1200, allow_fail=False,
+                allow_short=False):
         """behaviours: list of JSON strings (one schedule each). Returns list of traces
         (each a list of rows), in the same order as the behaviours."""
         inp = self.sc.path("%s-in.ndjson" % tag)
@@ -86,6 +87,13 @@ class Run:
         if "no tests to run" in out:
             raise v.MachineryError("harness test %s not found in %s" % (runre, pkgdir))
         traces = v.split_traces(v.read_ndjson(outp))
+        if allow_short and 0 < len(traces) < len(behaviours):
+            # the harness may end the process on purpose after a behaviour that dead-locks (it cannot be
+            # abandoned inside the process); it says so in the Health record that ends the last trace
+            lastrow = traces[-1][-1] if traces[-1] else {}
+            if lastrow.get("ev") == "Health" and lastrow.get("deadlock") is True:
+                v.log("harness stopped after behaviour %d of %d (deadlock verdict)" % (len(traces), len(behaviours)))
+                return traces
         if len(traces) != len(behaviours):
             raise v.MachineryError("dead driver: %d behaviours but %d traces\n%s\n[...]\n%s"
                                    % (len(behaviours), len(traces), out[:2500], out[-2500:]))
